@@ -135,6 +135,18 @@ def dist_case(M, system, rows, neutral_kind, zero_row, relative=True):
         for d in range(cb.shape[1]):
             cross.append(M.eq(co[i, d] * cb[0, 0], co[0, 0] * cb[i, d]))
     goals["hue direction from the neutral point kept; all saturations contracted by one common factor"] = M.conj(*cross)
+    if m == 2:
+        # dichromat: chromaticity = second-receptor share; the chromatic gamut is the interval spanned by the vertex shares
+        share = lambda v: v[1] / (v[0] + v[1])
+        sh_P = [share(list(P[k])) for k in range(P.shape[0])]
+        if M.symbolic:
+            lo = symnp._reduce(symnp.smin, np.array(sh_P, dtype=object), None); hi = symnp._reduce(symnp.smax, np.array(sh_P, dtype=object), None)
+        else:
+            lo, hi = min(sh_P), max(sh_P)
+        inside_before = M.conj(*[M.conj(M.le(lo, share(list(Bl[i]))), M.le(share(list(Bl[i])), hi)) for i in live])
+        goals["every scaled chromaticity lies in the chromatic gamut"] = M.conj(*[M.conj(M.le(lo, share(list(Ol[i]))), M.le(share(list(Ol[i])), hi)) for i in live])
+        if not zero_row:
+            goals["targets already inside the chromatic gamut are returned unchanged"] = M.implies(inside_before, M.eq(Ol, Bl))
     return goals
 
 
@@ -150,7 +162,12 @@ def cases(tier, seed):
         for kkind in ("none", "vec", "mat"):
             for relative in (True, False):
                 add(f"L1 scaling {m}x{n} K={kkind} relative={relative}", "l1_case", m=m, n=n, rows=(3 if m == 2 else 2), kkind=kkind, relative=relative)
-    # Chromatic (distance) scaling is NOT decided: `dist_case` above runs the real hull_dist_scaling in exact algebraic arithmetic, but every comparison
+    # dichromats: the chromatic space is one-dimensional and free of square roots (explicit min/max branch of the code): explored symbolically
+    for neutral_kind in ("default", "given"):
+        for zero_row in (False, True):
+            add(f"distance scaling dichromat neutral={neutral_kind} zero-row={zero_row}", "dist_case", system="di", rows=2, neutral_kind=neutral_kind, zero_row=zero_row,
+                opts=dict(n_validate=2, max_paths=400, timeout_ms=30000))
+    # Chromatic (distance) scaling for tri-/tetrachromats is NOT decided: `dist_case` above runs the real hull_dist_scaling in exact algebraic arithmetic, but every comparison
     # on the way (zero rows, `alphas <= 0`, nanmin) involves sums of sqrt-constants and divisions by chromaticity sums; z3 neither folds them nor
     # honours its timeout on them (probed: minutes per comparison, see DESIGN.md).  Only the caller-array clause of that function is exercised (C14).
     return C
